@@ -10,7 +10,7 @@ from sim.world import WORLD, SimSinkError, HarnessError
 from sim import observe
 from sim.lib import KINDS
 
-MUTATIONS = {"NEW", "ADD_OP", "ADD_OP_IN", "ADD_SUB", "NEW_LIB", "COPY", "APPLY", "FLATTEN", "SET_DUR", "SET_REP",
+MUTATIONS = {"NEW", "ADD_OP", "ADD_OP_IN", "ADD_SUB", "ADD_LIVE", "NEW_LIB", "COPY", "APPLY", "FLATTEN", "SET_DUR", "SET_REP",
              "OVR_ENTER", "OVR_LEAVE", "SET_INIT"}
 FAULTS = {"FLUSH", "SINK_FAIL", "GC", "IDLE", "DROP"}
 
@@ -174,6 +174,16 @@ class Exec:
             link = ret.relation_link
             ref = link.reference_node
             self.sub_placements[i] = {"rt": link.relation_type.name, "ref_obj": ref, "obj": ret}
+        elif op == "ADD_LIVE":
+            # nest the live structure of another circuit (no copy): from here on both circuits hold the same block
+            h = self.handles[st["c"]]
+            child = self.handles[st["child"]]
+            block = observe.struct_of(child)
+            ret = h.obj.add_operation(block)
+            self._register_entry(h, block)
+            link = block.relation_link
+            ref = link.reference_node if not isinstance(link, L.MultiRelationLink) else None
+            self.sub_placements[i] = {"rt": link.relation_type.name, "ref_obj": ref, "obj": block, "ret_is_op": ret is block}
         elif op == "NEW_LIB":
             from sim import libsrc
             c = libsrc.construct(L, st["ctor"], st["args"])
